@@ -20,22 +20,22 @@ func Spec_GetAlternativesSearchOrder(
 	generator utils.ValueGenerator,
 ) (model.AlternativeWithCriteria, []model.AlternativeWithCriteria) {
 	if len(params.GetCurrentChoice()) > 0 {
-		allAlternatives := dm.AllAlternatives()
-		choice := model.FetchAlternative(&allAlternatives, params.GetCurrentChoice())
-		leftAlternatives := model.RemoveAlternative(*model.CopyAlternatives(&dm.ConsideredAlternatives), choice)
-		otherAlternatives := OrderAlternatives(params.IsRandomAlternativesOrdering(), &leftAlternatives, generator)
+		allAlternatives := dm.Spec_AllAlternatives()
+		choice := model.Spec_FetchAlternative(&allAlternatives, params.GetCurrentChoice())
+		leftAlternatives := model.Spec_RemoveAlternative(*model.Spec_CopyAlternatives(&dm.ConsideredAlternatives), choice)
+		otherAlternatives := Spec_OrderAlternatives(params.IsRandomAlternativesOrdering(), &leftAlternatives, generator)
 		return choice, *otherAlternatives
 	} else {
-		alternatives := *OrderAlternatives(params.IsRandomAlternativesOrdering(), &dm.ConsideredAlternatives, generator)
+		alternatives := *Spec_OrderAlternatives(params.IsRandomAlternativesOrdering(), &dm.ConsideredAlternatives, generator)
 		return alternatives[0], alternatives[1:]
 	}
 }
 
 func Spec_OrderAlternatives(isRandomOrder bool, alternatives *[]model.AlternativeWithCriteria, generator utils.ValueGenerator) *[]model.AlternativeWithCriteria {
 	if isRandomOrder {
-		return model.ShuffleAlternatives(alternatives, generator)
+		return model.Spec_ShuffleAlternatives(alternatives, generator)
 	} else {
-		return model.CopyAlternatives(alternatives)
+		return model.Spec_CopyAlternatives(alternatives)
 	}
 }
 
